@@ -17,6 +17,19 @@ from hypothesis import strategies as st
 from vfw import gen_records
 
 SY = [0.125, 0.25, 0.5, 1.0]
+
+
+def _exact_step(dt):
+    """The planted truth is exact only where one lattice unit of rain per
+    step survives the trip through an intensity in mm/h: (u*3600/dt)*dt/3600
+    == u in double arithmetic for every lattice depth used (true of every
+    whole-minute step of the list and of 90 s; not of 115 s or 229 s)."""
+    return all((u / 8.0 * 3600.0 / dt) * dt / 3600.0 == u / 8.0
+               and (u / 8.0 * 3600.0 / dt) * (dt / 3600.0) == u / 8.0
+               for u in range(1, 65))
+
+
+TRUTH_STEPS = [dt for dt in gen_records.STEPS if _exact_step(dt)]
 DYADIC_GRID = [1.0, 0.5, 0.25, 2.0]
 DECIMAL_GRID = [0.1, 0.2, 0.3, 0.7, 2.5, 5.0]
 
@@ -26,7 +39,7 @@ def truth_records(draw, min_storms=4, max_storms=10, noise=False,
                   dts=None, curve_len=None, et_varying=True, fixed=None,
                   top_range=(-200, 800), gaps=False):
     fixed = fixed or {}
-    dt = fixed.get('dt') or draw(st.sampled_from(dts or gen_records.STEPS))
+    dt = fixed.get('dt') or draw(st.sampled_from(dts or TRUTH_STEPS))
     tz = fixed.get('tz') or draw(st.sampled_from(gen_records.ZONES))
     t0 = fixed.get('t0') or gen_records.draw_t0(draw, dt, span=150)
     sy = fixed.get('sy') or draw(st.sampled_from(SY))
